@@ -25,6 +25,11 @@
 (*              Sim/Weight with factors f; an empty slot is NaN.           *)
 (*   Combine    rdm(k,l) = self(k) + self(l) - 2 cross(k,l); conditions in *)
 (*              order of first appearance.                                 *)
+(* descriptor=None: every observation is its own condition (inp.lab is the *)
+(* EFFECTIVE labelling 1..n then; inp.dlab is what the dataset carries),   *)
+(* whatever other observation descriptors - in particular one NAMED        *)
+(* 'index' - the dataset has, and whatever calls were made on the dataset  *)
+(* before (action Prior; no call changes its dataset: DatasetFrame).       *)
 (* The dot / quadratic kernels give exact rationals; for correlation and   *)
 (* Poisson the module fixes pairs, factors, weights and statistics, the    *)
 (* sqrt / log step is the trusted kernel in harness/unbalanced.py.         *)
@@ -51,6 +56,11 @@ CONSTANTS
   FoldModes,   \* subset of {"none", "given"}
   NanMode,     \* "none" | "chan" (whole channels missing) | "obs" (any valid sets)
   Design,      \* "any" | "single" (one observation per condition) | "foldbal" (equal cell counts)
+  NoDescs,     \* subset of BOOLEAN: TRUE = the call is made with descriptor=None
+  IdxKinds,    \* subset of {"none", "perm", "rep"}: the dataset already carries an obs descriptor NAMED 'index'
+               \* (unique but permuted values / repeated values, e.g. a trial counter or merged sessions)
+  Priors,      \* subset of BOOLEAN: TRUE = an earlier cross-validated call without fold descriptor was made
+               \* on the SAME dataset object before this one (a two-step session)
   EmitMod
 
 VARIABLES inp, pc, out
@@ -183,15 +193,20 @@ ValidSets == CASE NanMode = "none" -> {[o \in 1..NObs |-> 1..NCh]}
 PrecOk(m, pid) == pid = 0 \/ m \in {"mahalanobis", "crossnobis"}
 Init ==
   /\ pc = "in" /\ out = <<>>
-  /\ \E lab \in [1..NObs -> 1..NLab], m \in Methods, w \in Weightings, pid \in PrecIds, fm \in FoldModes :
+  /\ \E dlab \in [1..NObs -> 1..NLab], m \in Methods, w \in Weightings, pid \in PrecIds, fm \in FoldModes :
      \E fold \in (IF fm = "given" THEN [1..NObs -> 1..NFold] ELSE {<<>>}) :
-     \E x \in DataSet, valid \in ValidSets :
+     \E x \in DataSet, valid \in ValidSets, nd \in NoDescs, ik \in IdxKinds, pr \in Priors :
         /\ PrecOk(m, pid)
-        /\ inp = [lab |-> lab, fold |-> fold, usefold |-> (fm = "given"), x |-> x, valid |-> valid, m |-> m, w |-> w,
+        /\ inp = [dlab |-> dlab, nodesc |-> nd, idx |-> ik, prior |-> pr,
+                  lab |-> IF nd THEN [o \in 1..NObs |-> o] ELSE dlab, fold |-> fold, usefold |-> (fm = "given"), x |-> x, valid |-> valid, m |-> m, w |-> w,
                   prec |-> IF pid = 0 THEN <<>> ELSE [c \in 1..NCh |-> [d \in 1..NCh |-> PrecCat[pid][c][d]]]]
         /\ Adm(inp) /\ DesignOk(inp)
-Compute == /\ pc = "in" /\ out' = Result(inp) /\ pc' = "done" /\ UNCHANGED inp
-Next == Compute
+\* an earlier call on the same dataset object (cross-validated method with the condition descriptor, no fold
+\* descriptor): it returns its own RDM and leaves the dataset - hence everything the next call sees - alone
+Prior == /\ pc = "in" /\ inp.prior /\ pc' = "prior" /\ UNCHANGED <<inp, out>>
+Compute == /\ (pc = "prior" \/ (pc = "in" /\ ~inp.prior))
+           /\ out' = Result(inp) /\ pc' = "done" /\ UNCHANGED inp
+Next == Prior \/ Compute
 Spec == Init /\ [][Next]_vars
 Done == pc = "done"
 
@@ -216,6 +231,14 @@ BalCross(i, k, l) ==
 CondsOf(i) == FirstApp(i.lab)
 PairLab(i, p) == LET cp == CondPairs(Len(CondsOf(i))) IN <<CondsOf(i)[cp[p][1]], CondsOf(i)[cp[p][2]]>>
 
+\* no call changes the dataset it is given
+DatasetFrame == [][inp' = inp]_vars
+\* descriptor=None: one observation per condition, conditions = observations in their order; neither an obs
+\* descriptor named 'index' nor the condition labels nor an earlier call have any influence
+NoDescIsSingle == (Done /\ inp.nodesc) =>
+  /\ SingleObs(inp) /\ out.conds = [o \in ObsOf(inp) |-> o]
+  /\ \A ik \in {"none", "perm", "rep"} : \A dl \in {inp.dlab, [o \in ObsOf(inp) |-> 1]} :
+        Result([inp EXCEPT !.idx = ik, !.dlab = dl, !.prior = FALSE]) = out
 \* labels: every label once, in order of first appearance
 CondOrder == Done =>
   LET c == out.conds IN
@@ -321,7 +344,8 @@ ReverseInvariant == (Done /\ Exact(inp)) =>
 (* ---------------- emission ------------------------------------------------- *)
 Pick(n) == n = 1 \/ RandomElement(1..n) = 1
 Emit == (Done /\ Pick(EmitMod)) =>
-  PrintT(ToJson([lab |-> inp.lab, fold |-> inp.fold, usefold |-> inp.usefold, x |-> inp.x,
+  PrintT(ToJson([dlab |-> inp.dlab, nodesc |-> inp.nodesc, idx |-> inp.idx, prior |-> inp.prior,
+                 lab |-> inp.lab, fold |-> inp.fold, usefold |-> inp.usefold, x |-> inp.x,
                  valid |-> [o \in ObsOf(inp) |-> Sorted(inp.valid[o])], m |-> inp.m, w |-> inp.w, prec |-> inp.prec,
                  out |-> out]))
 =============================================================================
